@@ -109,26 +109,26 @@ def xrefObjBytes (fmt : R → List UInt8) (tr : Trailer (Prim R)) (ids : List (L
 def tailBytes (i : SaveInfo) : List UInt8 := [10] ++ kwStartxref ++ [10] ++ fmtNat i.xpos ++ [10] ++ kwEOF
 
 /-- the record lengths as they follow from the values -/
-def layoutOf (fmt : R → List UInt8) (b : BDoc R) : Layout :=
+def layoutOf (fmt : R → List UInt8) (typed : Bool) (b : BDoc R) : Layout :=
   ⟨fun id => match chLookup (prep b.doc).st2.changes id with
       | some (v, g) => max 1 (frameOf fmt (id, v, g)).length     -- (a frame is never empty; `max` only
       | none => 1,                                                --  makes that evident to the theorems)
    fun i => max 1 (xrefObjBytes fmt b.doc.tr b.ids (prep b.doc).infoRef i).length,
-   fun i => (tailBytes i).length⟩
+   fun i => (tailBytes i).length,
+   typed⟩
 
 /-- what one successful save appends -/
 def revisionBytes (fmt : R → List UInt8) (b : BDoc R) (i : SaveInfo) : List UInt8 :=
   framesOf fmt (prep b.doc).st2.changes ++ xrefObjBytes fmt b.doc.tr b.ids (prep b.doc).infoRef i ++ tailBytes i
 
-/-- `Storage::save`: the new document and bytes; a failed save leaves the bytes as they were (the
-    attempt is truncated away). (Not covered: `Trailer::from_dict` failing *after* the revision was
-    written — the catalog no longer resolves — where the real backend keeps the revision.) -/
-def saveB (fmt : R → List UInt8) (b : BDoc R) : BDoc R × Out SaveInfo :=
-  match save (params fmt b.ids) (layoutOf fmt b) b.doc with
-  | (d', .ok i) => (⟨d', b.ids, b.bytes ++ revisionBytes fmt b i⟩, .ok i)
-  | (d', .err) => (⟨d', b.ids, b.bytes⟩, .err)
-  | (d', .panic) => (⟨d', b.ids, b.bytes⟩, .panic)
-  | (d', .oof) => (⟨d', b.ids, b.bytes⟩, .oof)
+/-- `Storage::save`: the new document and bytes. The bytes grow by the revision exactly when `write_revision`
+    succeeded (`commitInfo`), whether the typed reload of the trailer after it succeeds (`typed`) or not: a save that
+    fails earlier is truncated away, one that fails later keeps its revision. -/
+def saveB (fmt : R → List UInt8) (typed : Bool) (b : BDoc R) : BDoc R × Out SaveInfo :=
+  let r := save (params fmt b.ids) (layoutOf fmt typed b) b.doc
+  match commitInfo (params fmt b.ids) (layoutOf fmt typed b) b.doc with
+  | some i => (⟨r.1, b.ids, b.bytes ++ revisionBytes fmt b i⟩, r.2)
+  | none => (⟨r.1, b.ids, b.bytes⟩, r.2)
 
 /-! ### histories at byte level: `save` takes its record lengths from the values -/
 
@@ -139,7 +139,13 @@ inductive OpB (R : Type) where
   | fulfil (id : Nat) (v : Prim R)
   | get (id : Nat)
   | resolve (id : Nat)
-  | save
+  /-- `typed`: the typed reload of the trailer at the end of this save succeeds -/
+  | save (typed : Bool)
+
+/-- the flag of a `save` (irrelevant for the other operations) -/
+def OpB.typed : OpB R → Bool
+  | .save t => t
+  | _ => true
 
 /-- the operation of the abstract model; `L` is the layout a `save` is run with -/
 def OpB.toOp (L : Layout) : OpB R → Op (Prim R)
@@ -149,17 +155,17 @@ def OpB.toOp (L : Layout) : OpB R → Op (Prim R)
   | .fulfil id v => .fulfil id v
   | .get id => .get id
   | .resolve id => .resolve id
-  | .save => .save L
+  | .save _ => .save L
 
 def stepB (fmt : R → List UInt8) (b : BDoc R) : OpB R → BDoc R × Res (Prim R)
-  | .save =>
-    match saveB fmt b with
+  | .save typed =>
+    match saveB fmt typed b with
     | (b', .ok i) => (b', .saved i)
     | (b', .err) => (b', .failed .err)
     | (b', .panic) => (b', .failed .panic)
     | (b', .oof) => (b', .failed .oof)
   | o =>
-    let r := step (params fmt b.ids) b.doc (o.toOp ⟨fun _ => 1, fun _ => 1, fun _ => 0⟩)
+    let r := step (params fmt b.ids) b.doc (o.toOp ⟨fun _ => 1, fun _ => 1, fun _ => 0, true⟩)
     ({ b with doc := r.1 }, r.2)
 
 def runB (fmt : R → List UInt8) (b : BDoc R) : List (OpB R) → BDoc R × List (Res (Prim R))
@@ -172,6 +178,6 @@ def runB (fmt : R → List UInt8) (b : BDoc R) : List (OpB R) → BDoc R × List
 /-- the same history for the abstract model: every `save` with the layout the values give it -/
 def liftOps (fmt : R → List UInt8) (b : BDoc R) : List (OpB R) → List (Op (Prim R))
   | [] => []
-  | op :: ops => op.toOp (layoutOf fmt b) :: liftOps fmt (stepB fmt b op).1 ops
+  | op :: ops => op.toOp (layoutOf fmt op.typed b) :: liftOps fmt (stepB fmt b op).1 ops
 
 end SaveBytes
